@@ -400,6 +400,22 @@ Theorem C16_reject_lattice_output_min_ge_max : forall c lo hi,
 Proof. exact reject_lattice_output_min_ge_max. Qed.
 Print Assumptions C16_reject_lattice_output_min_ge_max.
 
+(* the standalone LatticeConstraints object (no interpolation argument): every rejection above carries over, and
+   output_min >= output_max is rejected at construction too *)
+Theorem C16_reject_lattice_constraints_object : forall c,
+  accepts_lattice_constraints c = false \/
+  (exists lo hi, l_omin c = Some lo /\ l_omax c = Some hi /\ (hi <= lo)%Q) ->
+  accepts_lattice_constraints_obj c = false.
+Proof. exact reject_lattice_constraints_obj. Qed.
+Print Assumptions C16_reject_lattice_constraints_object.
+
+Theorem C16_accepted_lattice_constraints_object : forall c,
+  accepts_lattice_constraints_obj c = true ->
+  accepts_lattice_constraints c = true /\
+  (forall lo hi, l_omin c = Some lo -> l_omax c = Some hi -> (lo < hi)%Q).
+Proof. exact accepted_lattice_constraints_obj. Qed.
+Print Assumptions C16_accepted_lattice_constraints_object.
+
 Theorem C16_reject_lattice_unknown_interpolation : forall c,
   l_interp_ok c = false -> accepts_lattice c = false /\ accepts_lattice_layer c = false.
 Proof. exact reject_lattice_unknown_interpolation. Qed.
